@@ -269,6 +269,23 @@ theorem prim_connBlock (s : St) (p : Option Nat) (b : Bool) : Prim s (connBlock 
     · exact Prim.refl _
     · exact prim_updCell _ _ _ _ (fun _ => rfl) (fun _ => Or.inr rfl)
 
+theorem prim_dropHandle (s : St) (g : Nat) : Prim s (dropHandle s g) := by
+  unfold dropHandle
+  split
+  · exact Prim.refl _
+  · rename_i h _
+    have h1 : Prim s (if h.fl.isTrackable = true then invalidateTrackable s h.trk else s) := by
+      split
+      · exact prim_invalidateTrackable _ _
+      · exact Prim.refl _
+    have h2 : Prim s { (if h.fl.isTrackable = true then invalidateTrackable s h.trk else s) with
+        G := adel (if h.fl.isTrackable = true then invalidateTrackable s h.trk else s).G g } :=
+      h1.trans (Prim.of_eq rfl rfl rfl)
+    simp only
+    split
+    · exact h2.trans (prim_gcImpl _ _)
+    · exact h2
+
 theorem prim_collectStep {s s' : St} (h : collectStep s = some s') : Prim s s' := by
   unfold collectStep at h
   split at h
@@ -279,7 +296,10 @@ theorem prim_collectStep {s s' : St} (h : collectStep s = some s') : Prim s s' :
       split
       · exact (prim_disconnectCell _ _).after (Prim.of_eq rfl rfl rfl)
       · exact Prim.of_eq rfl rfl rfl
-    · simp at h
+    · split at h
+      · simp at h; subst h
+        exact (prim_dropHandle _ _).after (Prim.of_eq rfl rfl rfl)
+      · simp at h
 
 theorem prim_collectN (n : Nat) (s : St) : Prim s (collectN n s) := by
   induction n generalizing s with
